@@ -161,6 +161,15 @@ def hvdInstall (m : M) : M :=
   let m := onSt m fun s => { s with done := (List.range s.n).map fun i => s.done.getD i false || s.diskOK.getD i false }
   onSt m fun s => if !allTrue s.diskOK then s.resetCompletion else s
 
+/-- `hvdInstall` before the completion flags are looked at. -/
+def hvdPre (m : M) : M :=
+  let m := onSt m fun s => { s with verifier := false, bf := some s.diskOK, tainted := false }
+  let m := onSt m (·.writeBitfield)
+  onSt m fun s => { s with done := (List.range s.n).map fun i => s.done.getD i false || s.diskOK.getD i false }
+
+theorem hvdInstall_eq (m : M) :
+    hvdInstall m = onSt (hvdPre m) fun s => if !allTrue s.diskOK then s.resetCompletion else s := rfl
+
 def hvdHaves (m : M) : M :=
   let haves := (List.range m.1.n).filter fun i => m.1.diskOK.getD i false
   m.1.peers.foldl (fun m p =>
